@@ -1588,6 +1588,18 @@ def np_logical_and(I, args, kw):
     return binop(I, ast.BitAnd(), a, b)
 
 
+@model(np.abs)
+def np_abs(I, args, kw):
+    a = I.unwrap(args[0])
+    if isinstance(a, Arr) and a.dtype in ("int", "real"):
+        return Arr(a.shape, lambda *idx, _e=fz(a): z3.If(_e(*idx) >= 0, _e(*idx), -_e(*idx)), a.dtype, a.tag + ".abs")
+    if isinstance(a, SV) and a.k in ("int", "real"):
+        return mk(z3.If(a.e >= 0, a.e, -a.e), a.k)
+    if isinstance(a, (int, float)) and not isinstance(a, bool):
+        return abs(a)
+    raise Unsupported("np.abs of a non-numeric value")
+
+
 @model(np.isnan)
 def np_isnan(I, args, kw):
     theory.use("T-fp.reals: no NaN in real-modelled arrays")
